@@ -232,6 +232,88 @@ Section SubmitProofs.
   Qed.
 End SubmitProofs.
 
+(** *** happens-before: the stages of a submission and the orders in which the server can receive the requests *)
+Section HappensBefore.
+  Context {A : Type}.
+  Notation tagged := (@tagged A).
+  Notation request := (request A).
+
+  Lemma Forall2_perm_concat (S' S : list (list request)) :
+    Forall2 (@Permutation request) S' S -> Permutation (concat S') (concat S).
+  Proof. induction 1; cbn [concat]; [constructor | apply Permutation_app; assumption]. Qed.
+
+  (** every stage with more than one request carries no job group: the group-carrying requests are totally ordered *)
+  Definition seq_groups (S : list (list request)) : Prop :=
+    Forall (fun st => (length st <= 1)%nat \/ Forall (fun r => req_groups r = []) st) S.
+
+  Lemma linear_groups (S' S : list (list request)) :
+    Forall2 (@Permutation request) S' S -> seq_groups S -> sent_groups (concat S') = sent_groups (concat S).
+  Proof.
+    induction 1 as [|st' st S' S HP _ IH]; intros HS; [reflexivity|].
+    inversion HS as [|? ? Hst HS']; subst. cbn [concat]. unfold sent_groups in *.
+    rewrite !flat_map_app, (IH HS'). f_equal.
+    destruct Hst as [Hlen|Hnil].
+    - destruct st as [|x [|y st]]; cbn [length] in Hlen; try lia.
+      + apply Permutation_sym, Permutation_nil in HP; subst; reflexivity.
+      + apply Permutation_sym, Permutation_length_1_inv in HP; subst; reflexivity.
+    - rewrite !flat_map_all_nil; [reflexivity | exact Hnil |].
+      eapply Permutation_Forall; [symmetry; exact HP | exact Hnil].
+  Qed.
+
+  Lemma concat_singletons (l : list request) : concat (singletons l) = l.
+  Proof. induction l as [|x l IH]; [reflexivity|]. cbn. f_equal. exact IH. Qed.
+
+  Lemma slow_stages_concat c (G J : list request) : concat (slow_stages c G J) = slow_trace c G J.
+  Proof.
+    unfold slow_stages, slow_trace. cbn [concat app]. f_equal.
+    rewrite concat_app, concat_singletons. cbn [concat]. rewrite app_nil_r. reflexivity.
+  Qed.
+
+  Lemma submit_stages_concat c (bs : list (list tagged)) : concat (submit_stages c bs) = submit c bs.
+  Proof.
+    destruct bs as [|b [|b2 bs]].
+    - destruct c; reflexivity.
+    - destruct c; reflexivity.
+    - unfold submit_stages, submit. apply slow_stages_concat.
+  Qed.
+
+  Lemma seq_groups_singletons (l : list request) : seq_groups (singletons l).
+  Proof. induction l as [|x l IH]; constructor; [left; cbn; lia | exact IH]. Qed.
+
+  Lemma submit_stages_seq c (bs : list (list tagged)) : seq_groups (submit_stages c bs).
+  Proof.
+    destruct bs as [|b [|b2 bs]].
+    - destruct c; repeat constructor.
+    - constructor; [left; cbn; lia | constructor].
+    - unfold submit_stages, slow_stages. constructor; [left; cbn; lia|].
+      apply Forall_app; split; [apply seq_groups_singletons|].
+      constructor; [right; apply job_reqs_no_group | constructor; [left; cbn; lia | constructor]].
+  Qed.
+
+  (** whatever order compatible with happens-before the server receives the requests in: the job groups arrive in
+      their original order (parents before children) and every job arrives exactly once *)
+  Theorem submit_linearization c (bs : list (list tagged)) t :
+    linearization (submit_stages c bs) t ->
+    sent_groups t = groups_of (concat bs) /\ Permutation (sent_jobs t) (jobs_of (concat bs)).
+  Proof.
+    intros (S' & HF & ->). destruct (submit_sends c bs) as [Hg Hj]. split.
+    - rewrite (linear_groups _ _ HF (submit_stages_seq c bs)), submit_stages_concat. exact Hg.
+    - rewrite <- Hj, <- submit_stages_concat. unfold sent_jobs.
+      apply Permutation_flat_map, Forall2_perm_concat, HF.
+  Qed.
+
+  (** the slow path, explicitly: create; ONE STAGE PER job-group request, in bunch order; all job requests; commit *)
+  Theorem slow_path_stages c (bs : list (list tagged)) :
+    (2 <= length bs)%nat ->
+    submit_stages c bs = slow_stages c (group_reqs bs) (job_reqs bs)
+    /\ Forall (fun r => req_jobs r = []) (group_reqs bs)
+    /\ Forall (fun r => req_groups r = []) (job_reqs bs).
+  Proof.
+    intros Hlen. destruct bs as [|b [|b2 bs]]; cbn [length] in Hlen; try lia.
+    split; [reflexivity|]. split; [apply group_reqs_no_job | apply job_reqs_no_group].
+  Qed.
+End HappensBefore.
+
 (** Non-vacuity / the shape of the traces: one group + two jobs, at most two specs per bunch (the smallest
     layout with a MIXED bunch) takes the slow path, and the mixed bunch contributes to BOTH passes. *)
 Example submit_example :
@@ -315,4 +397,20 @@ Section Pipeline.
       apply Z.gtb_lt in H1; apply Z.gtb_lt in H2; split; assumption. }
     apply slow_any_order_limits; try tauto. apply gen_bunch_ok; assumption.
   Qed.
+  Theorem pipeline_linearization created (groups jobs : list A) t :
+    linearization (submit_stages created (gen_bunch (tag false groups) (tag true jobs))) t ->
+    sent_groups t = groups /\ Permutation (sent_jobs t) jobs.
+  Proof.
+    intros HL. destruct (submit_linearization created _ t HL) as [Hg Hj].
+    rewrite gen_bunch_concat, groups_of_tagged in Hg. rewrite gen_bunch_concat, jobs_of_tagged in Hj. split; assumption.
+  Qed.
+
+  Theorem pipeline_stages created (groups jobs : list A) :
+    let bunches := gen_bunch (tag false groups) (tag true jobs) in
+    concat (submit_stages created bunches) = submit_specs gen_bunch created groups jobs
+    /\ ((2 <= length bunches)%nat ->
+        submit_stages created bunches = slow_stages created (group_reqs bunches) (job_reqs bunches)
+        /\ Forall (fun r => req_jobs r = []) (group_reqs bunches)
+        /\ Forall (fun r => req_groups r = []) (job_reqs bunches)).
+  Proof. intros bunches. split; [apply submit_stages_concat | apply slow_path_stages]. Qed.
 End Pipeline.
